@@ -113,8 +113,13 @@ def rand_unit(rng, idx):
                     body.append(("if", ("name", "true"), 1, [("filler", 1)], [("if", ("name", "false"), 1, [("filler", 1)], None)]))
                     body.append(("filler", rng.choice([1, 20, 24])))
             body.append(("return", None))
+        mods = ["public"] if kind == "class" else []
+        if kind == "interface" and rng.random() < 0.3:
+            # a default method: an interface method with a body, as long as any other method
+            mods = ["default"]
+            body = [("local", "int", "tick", ("lit", "0")), ("filler", rng.choice([1, 5, 27, 28, 29, 30, 40])), ("return", None)]
         m = {"kind": "method", "annos": ([{"name": "Override", "args": None}] if rng.random() < 0.2 and kind == "class" else []),
-             "mods": (["public"] if kind == "class" else []), "ret": "void", "name": name, "params": params, "body": body,
+             "mods": mods, "ret": "void", "name": name, "params": params, "body": body,
              "pre_nl": rng.choice([1, 2]), "mods_own_line": rng.random() < 0.15}
         members.append(m)
     u = {"pkg": "p.k%d" % idx, "imports": ["java.util.List"], "kind": kind, "name": "K%d" % idx, "members": members,
